@@ -488,3 +488,145 @@ fn c07_offsets_from_ethernet_v4() {
     let s = &b[..l];
     c07_check_transport_error(SlicedPacket::from_ethernet(s), ref_ipv4_strict(&s[14..]), 14);
 }
+
+// ---------------------------------------------------------------------------------------------------------------------------
+// struct walk (`Ipv6Extensions::from_slice`): executable mirror of the spec `swalk` (contracts/net/ipv6_exts.rs.vx), which the
+// Verus run takes as an assumed contract of that function. This harness is the bounded check of that assumption.
+// ---------------------------------------------------------------------------------------------------------------------------
+
+#[derive(Clone, Copy, Default)]
+struct Seen {
+    dest: bool,
+    routing: bool,
+    final_dest: bool,
+    frag: bool,
+    auth: bool,
+}
+
+/// like `ref_walk`, but a header of a kind the fixed struct cannot hold any more ends the walk successfully at that header
+pub fn ref_swalk(start: u8, b: &[u8], max_headers: usize) -> RefWalk {
+    let mut n = start;
+    let mut off = 0usize;
+    let mut frag = false;
+    let mut first = true;
+    let mut seen = Seen::default();
+    let mut i = 0;
+    while i < max_headers {
+        i += 1;
+        let rest = &b[off..];
+        let stop = |fault| RefWalk { consumed: off, next: n, frag, fault };
+        if n == 0 && !first {
+            return stop(Some(RefFault::HopByHopNotAtStart));
+        }
+        if n == 0 || n == 43 || n == 60 {
+            // does the struct still have room for this kind?
+            if n == 60 {
+                if seen.routing {
+                    if seen.final_dest {
+                        return stop(None);
+                    }
+                } else if seen.dest {
+                    return stop(None);
+                }
+            }
+            if n == 43 && seen.routing {
+                return stop(None);
+            }
+            if rest.len() < 8 {
+                return stop(Some(RefFault::Len { layer: err::Layer::Ipv6ExtHeader, required: 8, len: rest.len(), offset: off }));
+            }
+            let l = (rest[1] as usize + 1) * 8;
+            if rest.len() < l {
+                return stop(Some(RefFault::Len { layer: err::Layer::Ipv6ExtHeader, required: l, len: rest.len(), offset: off }));
+            }
+            if n == 60 {
+                if seen.routing {
+                    seen.final_dest = true;
+                } else {
+                    seen.dest = true;
+                }
+            }
+            if n == 43 {
+                seen.routing = true;
+            }
+            n = rest[0];
+            off += l;
+        } else if n == 44 {
+            if seen.frag {
+                return stop(None);
+            }
+            if rest.len() < 8 {
+                return stop(Some(RefFault::Len { layer: err::Layer::Ipv6FragHeader, required: 8, len: rest.len(), offset: off }));
+            }
+            let fo = (u16::from_be_bytes([rest[2], rest[3]])) >> 3;
+            frag = (rest[3] & 1 != 0) || fo != 0;
+            seen.frag = true;
+            n = rest[0];
+            off += 8;
+        } else if n == 51 {
+            if seen.auth {
+                return stop(None);
+            }
+            if rest.len() < 12 {
+                return stop(Some(RefFault::Len { layer: err::Layer::IpAuthHeader, required: 12, len: rest.len(), offset: off }));
+            }
+            if rest[1] == 0 {
+                return stop(Some(RefFault::AuthZeroPayloadLen));
+            }
+            let l = (rest[1] as usize + 2) * 4;
+            if rest.len() < l {
+                return stop(Some(RefFault::Len { layer: err::Layer::IpAuthHeader, required: l, len: rest.len(), offset: off }));
+            }
+            seen.auth = true;
+            n = rest[0];
+            off += l;
+        } else {
+            return stop(None);
+        }
+        first = false;
+    }
+    RefWalk { consumed: usize::MAX, next: n, frag, fault: None }
+}
+
+/// C04 (bounded: chains of <= 24 bytes, <= 3 headers): `Ipv6Extensions::from_slice` == reference struct walk
+/// (verdict, bytes consumed, next header, fragmentation flag, every error field)
+#[kani::proof]
+#[kani::unwind(5)]
+fn p_ext_struct_walk() {
+    let b: [u8; N] = kani::any();
+    let l: usize = kani::any();
+    kani::assume(l <= N);
+    let start: u8 = kani::any();
+    let s = &b[..l];
+    let w = ref_swalk(start, s, 4);
+    kani::assume(w.consumed != usize::MAX);
+    let r = Ipv6Extensions::from_slice(IpNumber(start), s);
+    match w.fault {
+        None => match r {
+            Ok((exts, next, rest)) => {
+                assert!(next.0 == w.next, "struct walk: next header differs from the reference");
+                assert!(rest.len() == l - w.consumed && off(rest, s) == w.consumed, "struct walk: rest differs from the reference");
+                assert!(exts.is_fragmenting_payload() == w.frag, "struct walk: fragmentation flag differs from the reference");
+                kani::cover!(w.consumed == 16);
+            }
+            Err(_) => panic!("struct walk: error where the reference succeeds"),
+        },
+        Some(RefFault::HopByHopNotAtStart) => {
+            assert!(matches!(r, Err(err::ipv6_exts::HeaderSliceError::Content(err::ipv6_exts::HeaderError::HopByHopNotAtStart))));
+        }
+        Some(RefFault::AuthZeroPayloadLen) => {
+            assert!(matches!(
+                r,
+                Err(err::ipv6_exts::HeaderSliceError::Content(err::ipv6_exts::HeaderError::IpAuth(err::ip_auth::HeaderError::ZeroPayloadLen)))
+            ));
+        }
+        Some(RefFault::Len { layer, required, len, offset }) => match r {
+            Err(err::ipv6_exts::HeaderSliceError::Len(e)) => {
+                assert!(e.layer == layer && e.required_len == required && e.len == len && e.layer_start_offset == offset && e.len_source == LenSource::Slice,
+                    "struct walk: length error differs from the reference");
+                kani::cover!(offset == 8);
+            }
+            _ => panic!("struct walk: expected a length error"),
+        },
+    }
+}
